@@ -165,6 +165,11 @@ pub enum StageSpec {
     ObsDynHead(LimSpec),
     ObsDynTail(LimSpec),
     ObsDynSkip(LimSpec),
+    /// the adapter half of `dynamic_*_with_initial_value/count` used as the observer of the next
+    /// stage (its initial values are dropped; the next stage must start from the adapter's view)
+    ObsDynHeadInit(usize, LimSpec),
+    ObsDynTailInit(usize, LimSpec),
+    ObsDynSkipInit(usize, LimSpec),
 }
 
 impl StageSpec {
@@ -172,18 +177,18 @@ impl StageSpec {
         use StageSpec::*;
         match *self {
             DynHead(l) | DynTail(l) | DynSkip(l) | DynHeadInit(_, l) | DynTailInit(_, l) | DynSkipInit(_, l)
-            | ObsDynHead(l) | ObsDynTail(l) | ObsDynSkip(l) => Some(l),
+            | ObsDynHead(l) | ObsDynTail(l) | ObsDynSkip(l) | ObsDynHeadInit(_, l) | ObsDynTailInit(_, l) | ObsDynSkipInit(_, l) => Some(l),
             _ => None,
         }
     }
     pub fn is_obs(&self) -> bool {
-        matches!(self, StageSpec::ObsDynHead(_) | StageSpec::ObsDynTail(_) | StageSpec::ObsDynSkip(_))
+        matches!(self, StageSpec::ObsDynHead(_) | StageSpec::ObsDynTail(_) | StageSpec::ObsDynSkip(_) | StageSpec::ObsDynHeadInit(..) | StageSpec::ObsDynTailInit(..) | StageSpec::ObsDynSkipInit(..))
     }
     pub fn is_sort(&self) -> bool {
         matches!(self, StageSpec::Sort | StageSpec::SortBy | StageSpec::SortByKey)
     }
     pub fn is_tail(&self) -> bool {
-        matches!(self, StageSpec::Tail(_) | StageSpec::DynTail(_) | StageSpec::DynTailInit(..) | StageSpec::ObsDynTail(_))
+        matches!(self, StageSpec::Tail(_) | StageSpec::DynTail(_) | StageSpec::DynTailInit(..) | StageSpec::ObsDynTail(_) | StageSpec::ObsDynTailInit(..))
     }
     /// Property whose statement covers this adapter.
     pub fn prop(&self) -> &'static str {
@@ -221,6 +226,9 @@ impl StageSpec {
             ObsDynHead(_) => 15,
             ObsDynTail(_) => 16,
             ObsDynSkip(_) => 17,
+            ObsDynHeadInit(..) => 18,
+            ObsDynTailInit(..) => 19,
+            ObsDynSkipInit(..) => 20,
         }
     }
 }
